@@ -9,9 +9,12 @@
 (* every call are printed (used to explain a rejected trace and to replay).  *)
 EXTENDS MC_History
 
-Traces == JsonDeserialize(IOEnv.VT_TRACES)     \* Seq of Seq of events
+\* The trace file is parsed once, into a TLC register (a definition that calls JsonDeserialize
+\* would be evaluated again in every step).
+ASSUME TLCSet(100000, JsonDeserialize(IOEnv.VT_TRACES))
+Traces == TLCGet(100000)                       \* Seq of Seq of events
 \* event = [name, slot, arg, inp, res |-> [kind, dig, ident],
-\*          state |-> [gp, cache, scratch, mms |-> Seq over slots of [cfg, dirty, instr, repo]]]
+\*          state |-> [gp, cache, scratch, dep, mms |-> Seq over slots of [cfg, dirty, instr, repo]]]
 Expect == IOEnv.VT_MODE = "expect"
 
 VARIABLES tid, l
@@ -25,6 +28,7 @@ Step(e) ==
   CASE e.name = "NewMM"     -> NewMM(e.slot, e.arg)
     [] e.name = "DropMM"    -> DropMM(e.slot)
     [] e.name = "WriteFile" -> WriteFile(e.arg, e.inp)
+    [] e.name = "WriteDep"  -> WriteDep(e.arg, e.inp)
     [] e.name = "LoadStr"   -> LoadStr(e.slot, e.arg)
     [] e.name = "LoadFile"  -> LoadFile(e.slot, e.arg)
     [] OTHER -> FALSE
@@ -34,7 +38,8 @@ StateMatches(st) ==
   /\ gp' = st.gp
   /\ (cache' = {}) <=> (st.cache = 0)
   /\ scratch' = st.scratch
-  /\ \A s \in Slots :
+  /\ \A g \in TDepG : dep'[g] = st.dep[g]
+  /\ \A s \in TSlots :
        LET p == st.mms[s] IN
        /\ mms'[s].cfg = p.cfg
        /\ mms'[s].dirty = Range(p.dirty)
@@ -42,8 +47,8 @@ StateMatches(st) ==
        /\ RepoFiles(mms'[s]) = Range(p.repo)
 
 SpecState ==
-  [gp |-> gp', cache |-> Cardinality(cache'), scratch |-> scratch',
-   mms |-> [s \in Slots |-> [cfg |-> mms'[s].cfg, dirty |-> mms'[s].dirty, instr |-> mms'[s].instr,
+  [gp |-> gp', cache |-> Cardinality(cache'), scratch |-> scratch', dep |-> [g \in TDepG \cup {"_"} |-> IF g = "_" THEN "good" ELSE dep'[g]],
+   mms |-> [s \in TSlots |-> [cfg |-> mms'[s].cfg, dirty |-> mms'[s].dirty, instr |-> mms'[s].instr,
                              repo |-> RepoFiles(mms'[s])]]]
 
 TraceNext ==
